@@ -438,6 +438,16 @@ class Translator:
             s, t = self.vex(args[0], c)
             if t not in NUM:
                 bad('capacity of type %s' % (t,), line)
+            # neither the arithmetic of the argument nor the capacity (of bytes) may be able to overflow: statically, with the
+            # adaptor fact LEN of rs2lean_ints (a `len()` is at most isize::MAX; `len_utf8()` is at most 4)
+            def leaf(x):
+                if x[0] == 'mcall' and not x[3] and x[2] in ('len', 'len_utf8'):
+                    return ints.ISIZE_MAX if x[2] == 'len' else 4
+                return None
+            b = ints.cap_bound(args[0], leaf)
+            if b is None or b > ints.ISIZE_MAX:
+                bad('`%s(..)`: its argument can overflow / exceed isize::MAX, and this translator has no panic outcome for it'
+                    % '::'.join(path), line)
             return ('([] : List Char)', 'String') if path[0] == 'String' else ('([] : List Nat)', 'Bytes')
         bad('call of `%s`' % '::'.join(path), line)
 
